@@ -462,6 +462,35 @@ func (l lmtpError) Unwrap() error {
 	return nil
 }
 
+// Temporary and Fields make the summary of several failures an error the
+// endpoint and the queue can classify (a single failure is reached via
+// Unwrap): the same way target.remote does it, the message is to be retried
+// if any recipient failed temporarily.
+func (l lmtpError) Temporary() bool {
+	for _, err := range l {
+		if err != nil && err.Temporary() {
+			return true
+		}
+	}
+	return false
+}
+
+func (l lmtpError) Fields() map[string]interface{} {
+	if l.singleError() != nil {
+		return nil
+	}
+
+	code, enchCode := 550, exterrors.EnhancedCode{5, 0, 0}
+	if l.Temporary() {
+		code, enchCode = 451, exterrors.EnhancedCode{4, 0, 0}
+	}
+	return map[string]interface{}{
+		"smtp_code":     code,
+		"smtp_enchcode": enchCode,
+		"smtp_msg":      "Partial delivery failure, additional attempts may result in duplicates",
+	}
+}
+
 func (l lmtpError) Error() string {
 	if err := l.singleError(); err != nil {
 		return err.Error()
